@@ -27,6 +27,9 @@ var patchJSON = []string{
 	`{"action":"ietf-json-patch","patches":[{"op":"add","path":"/other","value":{"n":1}}]}`,
 	`{"action":"add-also-known-as","uris":["https://aka.example/"]}`,
 	`{"action":"remove-also-known-as","uris":["https://aka.example/"]}`,
+	// values that are valid but not spelled the way a URL library prints them: they are data, bound by the delta hash as written
+	`{"action":"add-also-known-as","uris":["HTTPS://Upper.example/Me%7e","https://x.example/me#"]}`,
+	`{"action":"add-services","services":[{"id":"s3","type":"T","serviceEndpoint":["HTTP://Upper.example/%7e"]}]}`,
 }
 
 // ser serializes a generic value; order gives, for the object at path p, a permutation of its sorted keys.
@@ -112,9 +115,9 @@ func perms(n int) [][]int {
 }
 
 func Run(r *core.Run) {
-	r.Rule = "create requests: patch lists of length 1-2 over all 8 actions x anchor origin {absent,string,object} x type {absent,set} x hash code x multihash configuration {[18],[19],[18,19],[19,18]} x 2 namespaces; " +
+	r.Rule = "create requests: patch lists of length 1-2 over all 8 actions (+ 2 patches with unusually spelled URIs) x anchor origin {absent,string,object} x type {absent,set} x hash code x multihash configuration {[18],[19],[18,19],[19,18]} x 2 namespaces; " +
 		"(i) suffix = mh(first configured algorithm, JCS(suffix data)), id = namespace:suffix; (ii) every member order of every object (<= 4! each), whitespace at every token boundary (<= 2 insertions), \\u spellings: same DID; " +
-		"(iii) every single-field modification of suffix data or delta: DID changes or request rejected; distinct = distinct request texts; non-trivial = all"
+		"(iii) every single-field modification of suffix data or delta, and every string of the delta respelled (case, scheme case, blanks, empty fragment, percent-escape case): DID changes or request rejected; distinct = distinct request texts; non-trivial = all"
 	r.Assumptions = []string{"reference suffix from ref/mh + ref/jcs over the suffix data model {deltaHash, recoveryCommitment, anchorOrigin, type}", "unknown extra members are out of scope (dropped by the decoder by design; rejected on the long-form path, C17)"}
 	type cfg struct {
 		algs []uint
@@ -364,10 +367,82 @@ func Run(r *core.Run) {
 			}
 			differs("modify/"+rq.label+"/patch-leaf", m, "value inside the first patch changed")
 		}
+		// every string inside the delta, respelled the way a normalising step might consider "the same" (case of the whole string or of
+		// a URI scheme only, surrounding blanks, an empty fragment, case of a percent escape): the delta is data and is bound as written
+		{
+			var leaves [][]any // paths of string leaves
+			var walk func(v any, path []any)
+			walk = func(v any, path []any) {
+				switch t := v.(type) {
+				case M:
+					for k, e := range t {
+						walk(e, append(append([]any{}, path...), k))
+					}
+				case []any:
+					for i, e := range t {
+						walk(e, append(append([]any{}, path...), i))
+					}
+				case string:
+					leaves = append(leaves, path)
+				}
+			}
+			walk(clone()["delta"], nil)
+			sort.Slice(leaves, func(i, j int) bool { return fmt.Sprint(leaves[i]) < fmt.Sprint(leaves[j]) })
+			for li, path := range leaves {
+				if len(path) > 0 && path[len(path)-1] == "action" {
+					continue // another action is another patch; covered by the patch-level modifications
+				}
+				get := func(root any) (parent any, last any, cur string) {
+					v := root
+					for _, step := range path[:len(path)-1] {
+						switch k := step.(type) {
+						case string:
+							v = v.(M)[k]
+						case int:
+							v = v.([]any)[k]
+						}
+					}
+					last = path[len(path)-1]
+					switch k := last.(type) {
+					case string:
+						cur = v.(M)[k].(string)
+					case int:
+						cur = v.([]any)[k].(string)
+					}
+					return v, last, cur
+				}
+				_, _, cur := get(clone()["delta"])
+				variants := []string{strings.ToUpper(cur), strings.ToLower(cur), cur + " ", " " + cur, cur + "#"}
+				if i := strings.Index(cur, "://"); i > 0 {
+					variants = append(variants, strings.ToUpper(cur[:i])+cur[i:], strings.ToLower(cur[:i])+cur[i:], cur+"%7e", cur+"/.")
+				}
+				if strings.Contains(cur, "%7e") {
+					variants = append(variants, strings.Replace(cur, "%7e", "%7E", 1), strings.Replace(cur, "%7e", "~", 1))
+				}
+				seen := map[string]bool{cur: true}
+				for vi, nv := range variants {
+					if seen[nv] {
+						continue
+					}
+					seen[nv] = true
+					m := clone()
+					parent, last, _ := get(m["delta"])
+					switch k := last.(type) {
+					case string:
+						parent.(M)[k] = nv
+					case int:
+						parent.([]any)[k] = nv
+					}
+					differs(fmt.Sprintf("respell/%s/%d/%d", rq.label, li, vi), m, fmt.Sprintf("delta string at %v respelled from %q to %q", path, cur, nv))
+					r.Class("respelled")
+				}
+			}
+		}
 	})
 	r.Sample(M{"request": string(ops.Bytes(reqs[4].m)), "checks": "suffix under 4 multihash configurations x 2 namespaces; all member orders; whitespace; single-field modifications"})
 	r.Require("reordered", 50)
 	r.Require("modified", 200)
+	r.Require("respelled", 500)
 	r.Require("whitespace", 5)
 }
 
